@@ -409,6 +409,9 @@ fn rule_cases() -> Vec<Case> {
     add("repeated directive applications", "directive @d on OBJECT\ntype T @d @d { a: Int }", false);
     add("repeated directive applications", "type T { a: Int @deprecated @deprecated }", false);
     add("repeated directive applications", "directive @d repeatable on OBJECT | FIELD_DEFINITION\ntype T @d @d { a: Int @d @d @d }", true);
+    add("ill-typed directive applications", "directive @d(x: Int!, y: Int) on OBJECT\ntype T @d(x: 1, z: 2) { a: Int }", false);
+    add("ill-typed directive applications", "directive @d(name: String!, scope: String, extra: Int) on OBJECT | FIELD_DEFINITION\ntype T @d(name: \"a\", scop: \"s\") { a: Int @d(name: \"b\", nope: 1) }", false);
+    add("ill-typed directive applications", "directive @d(name: String!, scope: String, extra: Int) on OBJECT | FIELD_DEFINITION\ntype T @d(name: \"a\", scope: \"s\") { a: Int @d(name: \"b\", extra: 1) }", true);
     add("ill-typed directive applications", "directive @d(x: Int!) on OBJECT\ntype T @d { a: Int }", false);
     add("ill-typed directive applications", "directive @d(x: Int!) on OBJECT\ntype T @d(x: \"s\") { a: Int }", false);
     add("ill-typed directive applications", "directive @d(x: Int!) on OBJECT\ntype T @d(x: 1, y: 2) { a: Int }", false);
